@@ -107,6 +107,18 @@ theorem overloads_agree (ib : Nat) (hib : 0 < ib) (S B : CType) (hS : 0 < S.bits
   have h1 : 0 ≤ b := by have := B.minVal_unsigned uB; unfold inRange at hb; omega
   simp [h0, h1]
 
+/-- The compile-time claim of the optimised overload ("lossless assignment": `std::common_type<A,B>` is the type of
+`a + b`) holds for all promoted types, and that type is one of the two operand types' shapes, unsigned when both
+operands are. -/
+theorem unsigned_sum_type (ib : Nat) (A B : CType) (hA : ib ≤ A.bits) (hB : ib ≤ B.bits)
+    (uA : A.signed = false) (uB : B.signed = false) :
+    commonType ib A B = uac ib A B ∧ (uac ib A B).signed = false ∧
+      ((uac ib A B).bits = A.bits ∨ (uac ib A B).bits = B.bits) := by
+  refine ⟨commonType_eq_uac_of_promoted ib A B hA, ?_, ?_⟩
+  · exact uac_unsigned ib A B (by rw [promote_of_ge ib A hA]; exact uA) (by rw [promote_of_ge ib B hB]; exact uB)
+  · unfold uac; rw [promote_of_ge ib A hA, promote_of_ge ib B hB]
+    rcases uacP_cases A B with ⟨e, _⟩ | ⟨e, _⟩ | ⟨e, _⟩ | ⟨e, _⟩ <;> rw [e] <;> simp
+
 /-- The type rules of the model (limits, integral promotion, `std::common_type`, type of `a+b`, the `AllUnsigned`
 dispatch) give the answers of the staged tree's compiler for every pair of its canonical integer types. -/
 theorem type_rules_match_compiler :
